@@ -135,7 +135,7 @@ func VerifC06_ConsolidationDecision() {
 	stubs.SetCondition(nc1, v1.ConditionTypeInitialized, metav1.ConditionTrue, now.Add(-time.Hour))
 	stubs.SetCondition(nc1, v1.ConditionTypeConsolidatable, metav1.ConditionTrue, now.Add(-time.Minute))
 	// the other node: a second candidate (multi-node consolidation) or a node that stays, with symbolic allocatable cpu
-	otherAlloc := corev1.ResourceList{corev1.ResourceCPU: verifrt.Quantity("other.cpu", 0, 8000), corev1.ResourceMemory: resource.MustParse("8Gi"), corev1.ResourcePods: resource.MustParse("110")}
+	otherAlloc := corev1.ResourceList{corev1.ResourceCPU: verifrt.MilliQuantity("other.cpu", 0, 8000), corev1.ResourceMemory: resource.MustParse("8Gi"), corev1.ResourcePods: resource.MustParse("110")}
 	otherCT := v1.CapacityTypeOnDemand
 	if two {
 		otherAlloc = alloc
@@ -150,7 +150,7 @@ func VerifC06_ConsolidationDecision() {
 	cluster.UpdateNodeClaim(nc2)
 
 	mkPod := func(name, nodeName string) (*corev1.Pod, resource.Quantity) {
-		cpu := verifrt.Quantity(name+".cpu", 1, 8000)
+		cpu := verifrt.MilliQuantity(name+".cpu", 1, 8000)
 		p := &corev1.Pod{}
 		p.Name, p.Namespace = name, "default"
 		p.UID = k8stypes.UID("uid-" + name)
